@@ -606,6 +606,39 @@ func (m *chainMachine) aAdvance(t *rapid.T) {
 		g = rapid.SampledFrom([]int64{1, 1, 1, 2, 3, 5, 10, 25}).Draw(t, "gap")
 	}
 	m.advance(g)
+	// sometimes the first transaction to reach an account that ran dry during the gap is the
+	// tenant's top-up (rather than a withdrawal or a close)
+	if due := m.overdueAccounts(); len(due) > 0 && rapid.IntRange(0, 2).Draw(t, "lateTopUp") == 0 {
+		a := due[m.pick(t, "overdue", len(due))]
+		if did, ok := dtypes.DeploymentIDFromEscrowAccount(a.ID); ok {
+			if tenant, ok := m.byAddr[did.Owner]; ok {
+				add := cmCoin(int64(rapid.IntRange(1, 40).Draw(t, "lateAmount")) * maxI64(1, m.params.depMin/100))
+				m.label("late-deposit-first-to-settle")
+				m.deliver(fmt.Sprintf("DepositDeployment(%s/%d,%s)[first transaction after the account ran dry]", tenant.name, did.DSeq, add), &dtypes.MsgDepositDeployment{ID: did, Amount: add}, tenant)
+			}
+		}
+	}
+}
+
+// overdueAccounts: deployment accounts still recorded as open whose open payments have, at the
+// current height, consumed more than the recorded balance (nothing has settled them yet).
+func (m *chainMachine) overdueAccounts() []etypes.Account {
+	var out []etypes.Account
+	for _, a := range m.snap.accounts {
+		if a.State != etypes.AccountOpen || a.ID.Scope != dtypes.EscrowScope {
+			continue
+		}
+		rate := sdk.ZeroInt()
+		for _, p := range m.snap.payments {
+			if p.AccountID == a.ID && p.State == etypes.PaymentOpen {
+				rate = rate.Add(p.Rate.Amount)
+			}
+		}
+		if rate.IsPositive() && rate.MulRaw(m.height-a.SettledAt).GT(a.Balance.Amount) {
+			out = append(out, a)
+		}
+	}
+	return out
 }
 
 // ---- the action table ------------------------------------------------------------------------
@@ -661,6 +694,14 @@ func (m *chainMachine) actions(prof cmProfile) map[string]func(*rapid.T) {
 			built, ok := b(t)
 			if !ok {
 				t.Skip("no target")
+			}
+			// either of the two routes the application offers for the same request: the legacy
+			// message router or the protobuf Msg service router
+			if rapid.IntRange(0, 3).Draw(t, "msgServiceRoute") == 0 {
+				m.svcRoute = true
+				defer func() { m.svcRoute = false }()
+				built.label += " [Msg service route]"
+				m.label("msg-service-route")
 			}
 			m.deliver(built.label, built.msg, built.signer)
 		})
@@ -1027,9 +1068,14 @@ func (m *chainMachine) aExhaustExactly(t *rapid.T) {
 	if g := rapid.IntRange(0, 2).Draw(t, "afterGap"); g > 0 {
 		m.advance(int64(g))
 	}
-	switch rapid.IntRange(0, 3).Draw(t, "trigger") {
+	switch rapid.IntRange(0, 4).Draw(t, "trigger") {
 	case 0:
 		m.deliver("WithdrawLease("+name+")", &mtypes.MsgWithdrawLease{LeaseID: lid}, m.byAddr[lid.Provider])
+	case 4:
+		// the tenant's late top-up is the first transaction to reach the account after the gap
+		add := c.rate.MulRaw(int64(rapid.IntRange(1, 50).Draw(t, "lateTopUpBlocks")))
+		m.label("late-deposit-first-to-settle")
+		m.deliver(fmt.Sprintf("DepositDeployment(%s/%d,%s)[first transaction after the gap]", tenant.name, did.DSeq, add), &dtypes.MsgDepositDeployment{ID: did, Amount: sdk.NewCoin(cmDenom, add)}, tenant)
 	case 1:
 		m.deliver("CloseLease("+name+")", &mtypes.MsgCloseLease{LeaseID: lid}, tenant)
 	case 2:
